@@ -96,6 +96,8 @@ structure Blk where
   l : Nat
   from_ : Nat
   to : Nat
+  /-- ghost: the log ids whose contents the block's hash was computed over -/
+  ids : List Nat := []
   deriving DecidableEq, Repr
 
 structure Adv where
@@ -306,7 +308,7 @@ def mkBlocks (l size : Nat) : Nat → Nat → List Nat → List Blk
     let batch := (ids.filter (· > last)).take size
     match batch.getLast? with
     | none => []
-    | some top => { l := l, from_ := last, to := top } :: mkBlocks l size fuel top ids
+    | some top => { l := l, from_ := last, to := top, ids := batch } :: mkBlocks l size fuel top ids
 
 def insertSorted (n : Nat) : List Nat → List Nat
   | [] => [n]
@@ -361,6 +363,40 @@ def updVol (w : World) (s : Sid) (ds : List (Nat × Int)) : Att :=
         if touched k then { r with own := some s, pen := some ((r.latest).getD 0 + delta k) } else r
       spent := fun t k => if t = s && touched k then w.spent t k + delta k else w.spent t k } {}
 
+/-- `InsertTransaction` of session `s`; `id = none`: the id is `nextval(transaction_id_l)` -/
+def insTx (w : World) (s : Sid) (l ref : Nat) (id : Option Nat) : Att :=
+  let nid := id.getD (w.txSeq l + 1)
+  -- sequences are not transactional: the value is consumed even when the statement fails
+  let seq' : Nat → Nat := fun l' => if l' = l && id.isNone then w.txSeq l + 1 else w.txSeq l'
+  match w.txs.find? (fun t => t.l = l && t.id = nid) with
+  | some t => if !t.com && t.by_ ≠ s then .blocked t.by_ else .failed { w with txSeq := seq' } .uniqueTxId
+  | none =>
+  match (if ref = 0 then none else w.txs.find? (fun t => t.l = l && t.ref = ref)) with
+  | some t => if !t.com && t.by_ ≠ s then .blocked t.by_ else .failed { w with txSeq := seq' } .uniqueRef
+  | none =>
+    .done { w with
+      txSeq := seq'
+      txs := w.txs ++ [{ l := l, id := nid, ref := ref, by_ := s, com := false }]
+      rev := fun l' t' => if l' = l && t' = nid then { com := none, own := some s, pen := some false } else w.rev l' t' }
+      { vals := [nid] }
+
+/-- the INSERT of `InsertLog`; `sync`: the `set_log_hash` trigger is installed -/
+def insLog (w : World) (s : Sid) (l ik hash : Nat) (sync : Bool) (id : Option Nat) (tx : Nat) : Att :=
+  let nid := id.getD (w.logSeq l + 1)
+  let seq' : Nat → Nat := fun l' => if l' = l && id.isNone then w.logSeq l + 1 else w.logSeq l'
+  match w.logs.find? (fun e => e.l = l && e.id = nid) with
+  | some e => if !e.com && e.by_ ≠ s then .blocked e.by_ else .failed { w with logSeq := seq' } .uniqueLogId
+  | none =>
+  match (if ik = 0 then none else w.logs.find? (fun e => e.l = l && e.ik = ik)) with
+  | some e => if !e.com && e.by_ ≠ s then .blocked e.by_ else .failed { w with logSeq := seq' } .uniqueIK
+  | none =>
+    -- BEFORE INSERT trigger set_log_hash: the last log this statement can see
+    let prev := if sync then maxId ((w.logs.filter (fun e => e.l = l && visLog s e)).map (·.id)) else 0
+    .done { w with
+      logSeq := seq'
+      logs := w.logs ++ [{ l := l, id := nid, ik := ik, hash := hash, prev := prev, tx := tx, by_ := s, com := false }] }
+      { vals := [nid] }
+
 /-- The effect of one statement of session `s` (not transaction control, which `step` handles). -/
 def exec (w : World) (s : Sid) : Stmt → Att
   | .begin | .commit | .rollback | .savepoint | .release | .rollbackTo => .done w {}
@@ -405,34 +441,8 @@ def exec (w : World) (s : Sid) : Stmt → Att
     .done w { vals := [maxId ((w.logs.filter (fun e => e.l = l && visLog s e)).map (·.id))] }
   | .getBalances ps => getBal w s ps (snapOf w s ps)
   | .updateVolumes ds => updVol w s ds
-  | .insertTx l ref id =>
-    let (nid, w1) := match id with
-      | some n => (n, w)
-      | none => (w.txSeq l + 1, { w with txSeq := fun l' => if l' = l then w.txSeq l + 1 else w.txSeq l' })
-    match w.txs.find? (fun t => t.l = l && t.id = nid) with
-    | some t => if !t.com && t.by_ ≠ s then .blocked t.by_ else .failed w1 .uniqueTxId
-    | none =>
-    match (if ref = 0 then none else w.txs.find? (fun t => t.l = l && t.ref = ref)) with
-    | some t => if !t.com && t.by_ ≠ s then .blocked t.by_ else .failed w1 .uniqueRef
-    | none =>
-      .done { w1 with
-        txs := w.txs ++ [{ l := l, id := nid, ref := ref, by_ := s, com := false }]
-        rev := fun l' t' => if l' = l && t' = nid then { com := none, own := some s, pen := some false } else w.rev l' t' }
-        { vals := [nid] }
-  | .insertLog l ik hash sync id tx =>
-    let (nid, w1) := match id with
-      | some n => (n, w)
-      | none => (w.logSeq l + 1, { w with logSeq := fun l' => if l' = l then w.logSeq l + 1 else w.logSeq l' })
-    match w.logs.find? (fun e => e.l = l && e.id = nid) with
-    | some e => if !e.com && e.by_ ≠ s then .blocked e.by_ else .failed w1 .uniqueLogId
-    | none =>
-    match (if ik = 0 then none else w.logs.find? (fun e => e.l = l && e.ik = ik)) with
-    | some e => if !e.com && e.by_ ≠ s then .blocked e.by_ else .failed w1 .uniqueIK
-    | none =>
-      -- BEFORE INSERT trigger set_log_hash: the last log this statement can see
-      let prev := if sync then maxId ((w.logs.filter (fun e => e.l = l && visLog s e)).map (·.id)) else 0
-      .done { w1 with logs := w.logs ++ [{ l := l, id := nid, ik := ik, hash := hash, prev := prev, tx := tx, by_ := s, com := false }] }
-        { vals := [nid] }
+  | .insertTx l ref id => insTx w s l ref id
+  | .insertLog l ik hash sync id tx => insLog w s l ik hash sync id tx
   | .revertUpdate l tx guarded =>
     if !(w.txs.any (fun t => t.l = l && t.id = tx && visTx s t)) then .done w { flag := false, vals := [0] }
     else
